@@ -463,6 +463,24 @@ class OsslClient:
         if data:
             self.c.bio_write(data)
 
+    def write_app(self, data: bytes):
+        self.c.send(data)
+
+    def read_app(self) -> bytes:
+        buf = bytearray()
+        while True:
+            try:
+                d = self.c.recv(65536)
+            except (self._SSL.WantReadError, self._SSL.ZeroReturnError):
+                break
+            except self._SSL.Error as e:
+                self.error = self.error or repr(e)
+                break
+            if not d:
+                break
+            buf.extend(d)
+        return bytes(buf)
+
     def chain(self):
         """The presented chain as cryptography certificates (leaf first)."""
         return [x.to_cryptography() for x in (self.c.get_peer_cert_chain() or [])]
